@@ -22,7 +22,8 @@ from harness import c01 as h01
 RULE = ("exhaustive over scenarios (harness/c01.py: 31 native sets x AirPlay video flag and x real TXT records, all 180 (set-up "
         "set, failing-connect subset) pairs, 48 MRP-tunnel / unified-RAOP configurations, five real devices as pyatv's own "
         "scanner sees them (Apple TV 4K, Apple TV 3, HomePod, Music via HSCP, AirPort Express) x every set of their protocols "
-        "left enabled, plus seeded random ones) x {no takeover, takeover holders} x 66 feature names, on the device object "
+        "left enabled, Companion's REAL connect callable against a fake device with every request of its connect sequence "
+        "rejected in turn, plus seeded random ones) x {no takeover, takeover holders} x 66 feature names, on the device object "
         "returned by the real pyatv.connect() and on the model (keyed by the connected set); the same oracle again (a) on "
         "every device right after each other device was set up in the same process (all ordered pairs, seeded order) and "
         "(b) after every step of random well-formed takeover/release histories with refused takeovers; non-trivial = the "
@@ -208,7 +209,8 @@ def run(ctx, only=None, before=None, ops=None):
 
         def evaluate(world, sc, holder, extra=None, tag=""):
             """the C13 oracle + observations for the model, in the state the device object is in now"""
-            S, video, key = world.S, world.video, h01.scen_key(sc)
+            S, key = world.S, h01.scen_key(sc)
+            video = "%d %d" % (1 if world.video else 0, 1 if world.power_known else 0)   # model inputs: device facts
             where = tag and f" [{tag}]"
             base_case = dict({"scenario": sc, "holder": holder}, **(extra or {}))
             reported, backed, amap, todo = {}, {}, {}, []
@@ -298,7 +300,7 @@ def run(ctx, only=None, before=None, ops=None):
                 ctx.note("scenario:nothing-connected")
                 continue
             key = h01.scen_key(sc)
-            ctx.note("scenario:" + ("device" if sc.get("profile") else "native" if not (sc["tunnel"] or sc["unified"]) else "tunnel/unified")
+            ctx.note("scenario:" + ("companion-real-connect" if sc.get("companion_device") else "device" if sc.get("profile") else "native" if not (sc["tunnel"] or sc["unified"]) else "tunnel/unified")
                      + ("+failing-connect" if world.fail else ""))
             holders = [None] + (h01.TEXT_ORDER if (ctx.thorough or not world.fail or only is not None) else [h01.TEXT_ORDER[len(key) % 5]])
             for holder in holders:
@@ -335,7 +337,7 @@ def run(ctx, only=None, before=None, ops=None):
             ctx.note("histories")
 
         qs = sorted({q for (_sc, S, video, _h, _r, _b, _a) in obs
-                     for q in (f"features {h01.set_bits(S)} {1 if video else 0}", f"backed {h01.set_bits(S)}", f"map {h01.set_bits(S)}")})
+                     for q in (f"features {h01.set_bits(S)} {video}", f"backed {h01.set_bits(S)}", f"map {h01.set_bits(S)}")})
         # the five get_feature implementations, fresh and rich
         proto_lines, proto_obs = [], []
         if only is None:
@@ -365,7 +367,7 @@ def run(ctx, only=None, before=None, ops=None):
         model_of = dict(zip(qs, answers))
         for (sc, S, video, holder, reported, backed, amap) in obs:
             case = {"scenario": sc, "holder": holder}
-            for what, impl, q in (("features", reported, f"features {h01.set_bits(S)} {1 if video else 0}"),
+            for what, impl, q in (("features", reported, f"features {h01.set_bits(S)} {video}"),
                                   ("backed", backed, f"backed {h01.set_bits(S)}"), ("map", amap, f"map {h01.set_bits(S)}")):
                 model = kv(model_of[q])
                 if model != impl:
